@@ -77,6 +77,15 @@ def impl(case):
                 r[name] = f()
             except Exception as e:  # noqa
                 r[name] = "!" + type(e).__name__
+        # the named methods and the operators are one public interface: they must agree
+        named = {}
+        for name, f in (("mul", lambda: str(P.multiply(Q))), ("com", lambda: bool(P.commutes_with(Q))),
+                        ("adj", lambda: (lambda a: None if a is None else str(a))(P.adjoint_map(Q)))):
+            try:
+                named[name] = f()
+            except Exception as e:  # noqa
+                named[name] = "!" + type(e).__name__
+        r["named_differs"] = sorted(k for k in named if named[k] != r[k])
         cs, who = P.complex_conj()
         r["conj"] = [cs, str(who)]
         r["wt"] = P.get_count_non_trivially()
@@ -135,6 +144,8 @@ def compare(r, m):
     for k, v in r.get("dense_ok", {}).items():
         if not v:
             bad.append("dense numpy check failed: " + k)
+    if r.get("named_differs"):
+        bad.append("operator and named method disagree: %s" % r["named_differs"])
     return bad
 
 
